@@ -71,38 +71,53 @@ type Rel struct {
 }
 
 type Case struct {
-	Nodes []Node     `json:"nodes"`
-	Ways  []Way      `json:"ways"`
-	Rels  []Rel      `json:"rels"`
-	Opts  [][]string `json:"opts"`
+	IDs   map[string]string `json:"ids"` // element type -> id class
+	Nodes []Node            `json:"nodes"`
+	Ways  []Way             `json:"ways"`
+	Rels  []Rel             `json:"rels"`
+	Opts  [][]string        `json:"opts"`
 }
 
 // ---------------------------------------------------------------- symbol maps (magnitude profiles)
 
 type profile struct {
-	base          map[string]int64 // element type -> id offset
-	sx, sy        float64          // grid -> degrees (same sign: orientation preserving)
-	tbase         int64            // unix seconds of abstract time 0
+	ids           map[string]string // element type -> id class (from the case)
+	sx, sy        float64           // grid -> degrees (same sign: orientation preserving)
+	tbase         int64             // unix seconds of abstract time 0
 	cbase, ubase  int64
 	explicitFalse bool // pass Option(false) for the options that are not in the set
 }
 
-var idProfiles = []map[string]int64{
-	{"node": 0, "way": 0, "relation": 0},                           // same numbers in all three id spaces
-	{"node": 1 << 31, "way": 1 << 33, "relation": 1 << 36},         // beyond 32 bit
-	{"node": 1 << 39, "way": (1 << 39) + 7, "relation": 1<<39 - 9}, // near the 40-bit limit of packed feature ids, interleaved
+// id classes: abstract id k (1, 2, ...) of an element type <-> concrete id
+var idClasses = map[string]struct {
+	to   func(k int64) int64
+	from func(v int64) int64
+}{
+	"small":  {func(k int64) int64 { return k }, func(v int64) int64 { return v }},
+	"i31":    {func(k int64) int64 { return 1<<31 - 2 + k }, func(v int64) int64 { return v - (1<<31 - 2) }},         // 2^31-1, 2^31, ...
+	"i32":    {func(k int64) int64 { return 1<<32 - 2 + k }, func(v int64) int64 { return v - (1<<32 - 2) }},         // 2^32-1, 2^32, ...
+	"top40":  {func(k int64) int64 { return 1<<40 - k }, func(v int64) int64 { return 1<<40 - v }},                   // 2^40-1, 2^40-2, ...
+	"neg":    {func(k int64) int64 { return -k }, func(v int64) int64 { return -v }},                                 // -1, -2, ...
+	"at40":   {func(k int64) int64 { return 1<<40 + k - 1 }, func(v int64) int64 { return v - (1<<40 - 1) }},         // 2^40, 2^40+1, ...
+	"over40": {func(k int64) int64 { return 1<<40 + 7 + k - 1 }, func(v int64) int64 { return v - (1<<40 + 7 - 1) }}, // 2^40+7, ...
 }
+
 var scales = [][2]float64{{1, 1}, {0.5, 0.25}, {-8, -4}, {16, 8}, {-0.125, -0.0625}}
 var tbases = []int64{86400, 1347408000, 2208988800}
 
-func profileFor(seed int64, line []byte) profile {
+func profileFor(seed int64, line []byte, ids map[string]string) profile {
 	h := int64(crc32.ChecksumIEEE(line)) + seed*7919
 	if h < 0 {
 		h = -h
 	}
+	for _, t := range []string{"node", "way", "relation"} {
+		if _, ok := idClasses[ids[t]]; !ok {
+			vio.Must(fmt.Errorf("unknown id class %q for %s", ids[t], t), "case")
+		}
+	}
 	sc := scales[(h/3)%int64(len(scales))]
 	return profile{
-		base:          idProfiles[h%int64(len(idProfiles))],
+		ids:           ids,
 		sx:            sc[0],
 		sy:            sc[1],
 		tbase:         tbases[(h/15)%int64(len(tbases))],
@@ -110,6 +125,15 @@ func profileFor(seed int64, line []byte) profile {
 		ubase:         []int64{0, 1 << 20}[(h/90)%2],
 		explicitFalse: (h/180)%2 == 1,
 	}
+}
+
+// id of the k-th element of type t; an unknown type (never produced by the specs) keeps the number
+func (p profile) id(t string, k int) int64 {
+	c, ok := idClasses[p.ids[t]]
+	if !ok {
+		return int64(k)
+	}
+	return c.to(int64(k))
 }
 
 func (p profile) tags(t [][2]string) osm.Tags {
@@ -152,28 +176,28 @@ func (p profile) render(c *Case) *osm.OSM {
 	o := &osm.OSM{}
 	for _, n := range c.Nodes {
 		o.Nodes = append(o.Nodes, &osm.Node{
-			ID: osm.NodeID(p.base["node"] + int64(n.ID)), Lon: float64(n.XY[0]) * p.sx, Lat: float64(n.XY[1]) * p.sy,
+			ID: osm.NodeID(p.id("node", n.ID)), Lon: float64(n.XY[0]) * p.sx, Lat: float64(n.XY[1]) * p.sy,
 			Tags: p.tags(n.Tags), Timestamp: p.ts(n.Meta.Timestamp), Version: n.Meta.Version,
 			ChangesetID: p.cs(n.Meta.Changeset), User: user(n.Meta.User), UserID: p.uid(n.Meta.UID), Visible: true,
 		})
 	}
 	for _, w := range c.Ways {
 		ow := &osm.Way{
-			ID: osm.WayID(p.base["way"] + int64(w.ID)), Tags: p.tags(w.Tags), Timestamp: p.ts(w.Meta.Timestamp),
+			ID: osm.WayID(p.id("way", w.ID)), Tags: p.tags(w.Tags), Timestamp: p.ts(w.Meta.Timestamp),
 			Version: w.Meta.Version, ChangesetID: p.cs(w.Meta.Changeset), User: user(w.Meta.User), UserID: p.uid(w.Meta.UID), Visible: true,
 		}
 		for _, r := range w.Refs {
-			ow.Nodes = append(ow.Nodes, osm.WayNode{ID: osm.NodeID(p.base["node"] + int64(r[0])), Lon: float64(r[1]) * p.sx, Lat: float64(r[2]) * p.sy})
+			ow.Nodes = append(ow.Nodes, osm.WayNode{ID: osm.NodeID(p.id("node", r[0])), Lon: float64(r[1]) * p.sx, Lat: float64(r[2]) * p.sy})
 		}
 		o.Ways = append(o.Ways, ow)
 	}
 	for _, r := range c.Rels {
 		or := &osm.Relation{
-			ID: osm.RelationID(p.base["relation"] + int64(r.ID)), Tags: p.tags(r.Tags), Timestamp: p.ts(r.Meta.Timestamp),
+			ID: osm.RelationID(p.id("relation", r.ID)), Tags: p.tags(r.Tags), Timestamp: p.ts(r.Meta.Timestamp),
 			Version: r.Meta.Version, ChangesetID: p.cs(r.Meta.Changeset), User: user(r.Meta.User), UserID: p.uid(r.Meta.UID), Visible: true,
 		}
 		for _, m := range r.Members {
-			or.Members = append(or.Members, osm.Member{Type: osm.Type(m.T), Ref: p.base[m.T] + int64(m.Ref), Role: m.Role})
+			or.Members = append(or.Members, osm.Member{Type: osm.Type(m.T), Ref: p.id(m.T, m.Ref), Role: m.Role})
 		}
 		o.Relations = append(o.Relations, or)
 	}
@@ -218,7 +242,7 @@ func small(v int64) int {
 
 func (p profile) unID(t string, v interface{}) int {
 	n, ok := v.(json.Number)
-	b, known := p.base[t]
+	c, known := idClasses[p.ids[t]]
 	if !ok || !known {
 		return -1
 	}
@@ -226,7 +250,10 @@ func (p profile) unID(t string, v interface{}) int {
 	if err != nil {
 		return -1
 	}
-	return small(i - b)
+	if k := small(c.from(i)); k >= 1 {
+		return k
+	}
+	return -1
 }
 
 func (p profile) unFID(v interface{}) string {
@@ -237,12 +264,14 @@ func (p profile) unFID(v interface{}) string {
 	parts := strings.SplitN(s, "/", 2)
 	if len(parts) == 2 {
 		if i, err := strconv.ParseInt(parts[1], 10, 64); err == nil {
-			if b, known := p.base[parts[0]]; known {
-				return parts[0] + "/" + strconv.Itoa(small(i-b))
+			if c, known := idClasses[p.ids[parts[0]]]; known {
+				if k := small(c.from(i)); k >= 1 {
+					return parts[0] + "/" + strconv.Itoa(k)
+				}
 			}
 		}
 	}
-	return s
+	return "?" // a feature id that is not "<type>/<id of an id class>"
 }
 
 func unGrid(v interface{}, s float64) int {
@@ -526,7 +555,7 @@ func main() {
 	vio.Map(vio.ReadLines(), 0, func(i int, line []byte) interface{} {
 		var c Case
 		vio.Must(json.Unmarshal(line, &c), "case")
-		p := profileFor(*seed, line)
+		p := profileFor(*seed, line, c.IDs)
 		got := Got{Runs: []Run{}}
 		for _, names := range c.Opts {
 			if names == nil {
